@@ -30,8 +30,25 @@ def bumpOp : P String := do
   let r := bump (go b f inc mb mf av)
   pure (outFs (r.map (·.1)) ++ " " ++ outFs (r.map (·.2)))
 
+/-- handoff.increase <u> <const> <meat round 1> <meat round 3> → the potential increase per month -/
+def increaseOp : P String := do
+  let u ← float; let c ← float; let m1 ← floats; let m3 ← floats
+  pure (outFs (thirdRoundIncrease u c m1 m3))
+
+/-- handoff.nzlConst <country code> → the constant of the rule of thumb -/
+def nzlConstOp : P String := do
+  let code ← str
+  pure (outF (nzlConst code))
+
+/-- handoff.bumpAll <biofuel> <feed> <increase> <maxB> <maxF> <avail> → biofuel', feed' -/
+def bumpAllOp : P String := do
+  let b ← floats; let f ← floats; let inc ← floats; let mb ← floats; let mf ← floats; let av ← floats
+  let r := bumpAll b f inc mb mf av
+  pure (outFs (r.map (·.1)) ++ " " ++ outFs (r.map (·.2)))
+
 def ops : List (String × P String) :=
   [("handoff.fillMonth", fillMonthOp), ("handoff.dailyMax", dailyMaxOp), ("handoff.fillNeg", fillNegOp),
-   ("handoff.redistribute", redistributeOp), ("handoff.bump", bumpOp)]
+   ("handoff.redistribute", redistributeOp), ("handoff.bump", bumpOp), ("handoff.increase", increaseOp),
+   ("handoff.nzlConst", nzlConstOp), ("handoff.bumpAll", bumpAllOp)]
 
 end Ops.Handoff
